@@ -50,7 +50,7 @@ Fixpoint canonical (c : cnode) (ind : nat) : bool :=
       (if has_nl g2 then own_line g2 (indent_from_gap g2) && canonical v (indent_from_gap g2)
        else streq g2 [" "] && canonical v ind)
   | CSet r gr body cg =>
-      (if r then streq gr [" "] else true) &&
+      (if r then streq gr [" "] else isnil_b gr) &&
       match body with
       | [] => if has_empty_line cg then streq cg (LF :: LF :: sp ind) else streq cg [" "]
       | _ =>
